@@ -169,8 +169,7 @@ def check_deferred(case) -> Result:
         if any(c in v for c in '[]<>{}'):
             continue  # a bracket inside the value changes what the surrounding notation reads as the value: only "returns or raises cleanly"
         same = (abs(got - base) < 1e-9) if isinstance(got, (int, float)) else (got == base)
-        echoes_unknown = fn_name == 'comp' and isinstance(got, dict) and any(k not in base for k in got)
-        if not same and pos != 'isotope' and not echoes_unknown:  # (a composition may echo a spelled but unknown element: not demanded)
+        if not same and pos != 'isotope':
             # the corpus values are unresolvable by the independent reference (pv/refmods.py): a value, even a non-zero one, is wrong
             try:
                 refmods.resolve(v)
